@@ -181,6 +181,7 @@ impl Emit<'_> {
         let rng = &mut *self.rng;
         let nlines = rng.small(6);
         let allow_extreme = rng.chance(1, 3);
+        let long_lines = rng.chance(1, 10);
         let mut out = String::new();
         let mut ranges = Vec::new();
         let (mut src, mut sl, mut sc, mut nm) = (0i64, 0i64, 0i64, 0i64);
@@ -188,15 +189,30 @@ impl Emit<'_> {
             if l > 0 {
                 out.push(';');
             }
-            let nseg = rng.small(5);
+            // mostly short lines; some documents carry long ones (16..40 segments) so that token
+            // positions 16, 32, ... on a line exist (range flags are stored in 6-bit groups,
+            // written in 16-bit words)
+            let nseg = if long_lines && rng.chance(1, 2) { rng.range_usize(14, 40) } else { rng.small(5) };
             let mut col = 0i64;
+            let mut burst = 0u32;
+            let mut burst_sign = 1i64;
             let mut line_ranges = Vec::new();
             for s in 0..nseg {
                 if s > 0 {
                     out.push(',');
                 }
                 let ncol = if s == 0 { rng.below(6) as i64 } else { col + rng.below(8) as i64 };
-                if allow_extreme && rng.chance(1, 30) {
+                if allow_extreme && burst == 0 && rng.chance(1, 40) {
+                    // a burst of 2..4 consecutive same-sign deltas near the 62-bit limit
+                    burst = 2 + rng.below(3) as u32;
+                    burst_sign = if rng.chance(1, 2) { 1 } else { -1 };
+                }
+                if burst > 0 {
+                    burst -= 1;
+                    let d = burst_sign * *rng.pick(&[1i64 << 62, (1 << 62) - 1, 1 << 61, (1 << 62) - (1 << 32)]);
+                    vlq(&mut out, d);
+                    col = ((col as i128 + d as i128).rem_euclid(1 << 32)) as i64;
+                } else if allow_extreme && rng.chance(1, 30) {
                     // legal but unusual: a column delta so large that the 32-bit running column wraps
                     let d = *rng.pick(&[(1i64 << 32) - 1, (1 << 32) - 3, 1 << 31, (1 << 32) + 2, -(1i64 << 31)]);
                     vlq(&mut out, d);
@@ -210,6 +226,23 @@ impl Emit<'_> {
                     let nsrc_id = rng.below(nsrc as u64) as i64;
                     vlq(&mut out, nsrc_id - src);
                     src = nsrc_id;
+                    if burst > 0 && rng.chance(1, 2) {
+                        // the burst also hits the original line / column running sums
+                        let d = burst_sign * (1i64 << 62);
+                        vlq(&mut out, d);
+                        sl = ((sl as i128 + d as i128).rem_euclid(1 << 32)) as i64;
+                        vlq(&mut out, d);
+                        sc = ((sc as i128 + d as i128).rem_euclid(1 << 32)) as i64;
+                        if fields == 5 && nnames > 0 {
+                            let nnm = rng.below(nnames as u64) as i64;
+                            vlq(&mut out, nnm - nm);
+                            nm = nnm;
+                        } else if fields == 5 && allow_bad {
+                            vlq(&mut out, 1);
+                        }
+                        line_ranges.push(rng.chance(1, 8));
+                        continue;
+                    }
                     let nsl = if rng.chance(1, 24) { *rng.pick(&[0i64, 1 << 31, (1 << 32) - 1, (1 << 32) - 2]) } else { rng.below(40) as i64 };
                     vlq(&mut out, nsl - sl);
                     sl = nsl;
@@ -323,7 +356,13 @@ impl Emit<'_> {
             keys.push(("debugId".into(), jstr("9f6a8e2e-3c4b-4d5e-8f7a-1b2c3d4e5f60")));
         }
         if hermes {
-            let items: Vec<String> = (0..nsrc.max(1))
+            // usually one entry per source; sometimes fewer or more (the format does not tie them)
+            let nfb = match rng.below(6) {
+                0 => rng.below(nsrc as u64 + 1) as u32,
+                1 => nsrc + 1,
+                _ => nsrc.max(1),
+            };
+            let items: Vec<String> = (0..nfb)
                 .map(|_| {
                     if rng.chance(1, 5) {
                         "null".into()
